@@ -129,6 +129,7 @@ structure CtxOK (ctx : Ctx) (G0 : List Group) : Prop where
   b_fresh : ∀ k gb, ctx.bmap.lookup k = some gb → gb.id ∉ gids G0
   b_inj : ∀ k1 k2 g1 g2, ctx.bmap.lookup k1 = some g1 → ctx.bmap.lookup k2 = some g2 → g1.id = g2.id → k1 = k2
   b_addrs : ∀ k gb, ctx.bmap.lookup k = some gb → gb.addrs.Nodup
+  b_nonempty : ∀ k gb, ctx.bmap.lookup k = some gb → gb.addrs ≠ []
 
 /-- Planner state versus groups on the manager. -/
 structure GInv (ctx : Ctx) (G0 G : List Group) (st : PSt) : Prop where
@@ -231,7 +232,10 @@ theorem put_new_group {ctx : Ctx} {G0 : List Group} (hc : CtxOK ctx G0) (S : Sto
     obtain ⟨g, hg, he⟩ := h
     exact hfresh (List.mem_map.mpr ⟨g, hg, by simpa using he⟩)
   refine ⟨{ S with groups := S.groups ++ [gb] }, ?_, rfl, rfl, rfl, ?_, hmono⟩
-  · simp [exec, putGroupCall, hhas]
+  · have hne : gb.addrs.isEmpty = false := by
+      have := hc.b_nonempty k gb hb
+      cases h : gb.addrs <;> simp_all
+    simp [exec, putGroupCall, hhas, hne]
   · show GInv ctx G0 (S.groups ++ [gb]) _
     have hfind : ∀ id, findGroup (S.groups ++ [gb]) id = if id = gb.id then some gb else findGroup S.groups id :=
       fun id => findGroup_append_fresh S.groups gb id hfresh
@@ -572,6 +576,7 @@ theorem equalize_spec {ctx : Ctx} {G0 : List Group} (hc : CtxOK ctx G0)
             have hfS : findGroup S.groups ga.id = some g0 := by rw [hinv.unneeded ga hgaM hnn]; exact hf0
             obtain ⟨S', f, hrun, hpol, hsvc, hgr, hfid, hmem⟩ :=
               groupCalls_converges' ctx.diff hdiff S ga gb g0 hfS he0 hperm (hc.a_addrs ga hgaM) (hc.b_addrs key gb hb)
+                (hc.b_nonempty key gb hb)
             have hcl := claim_group hc S.groups st key ga gb g0 f hinv hgaM hnn hb hn hfS (fun g => (hfid g).1) hmem
             rw [← hgr] at hcl
             have hgids : gids S'.groups = gids S.groups := by
